@@ -246,7 +246,8 @@ func (g *schemaGenerator) generateDeclaredType(t *schemas.Type, scope nameScope)
 
 	if decl, ok := g.output.declsBySchema[t]; ok {
 		if t.Dereferenced {
-			if decl.Name != scope.string() {
+			// An alias under a name that another declaration already has would declare that name twice.
+			if decl.Name != scope.string() && g.output.isUniqueTypeName(scope.string()) {
 				decl := &codegen.AliasType{
 					Alias: scope.string(),
 					Name:  decl.Name,
